@@ -186,13 +186,16 @@ def enum_algebra(seed):
         A = {p: ent(p, 1) for p in rnd.sample(paths, rnd.randint(0, 4))}
         Bp = rnd.sample(paths, rnd.randint(0, 4))
         Bents = {p: ent(p, 2) for p in Bp}
-        kind = trial % 3
-        arg = {0: lambda: contentsSet(Bents.values()), 1: lambda: [spell(p) for p in Bp], 2: lambda: list(Bents.values())}[kind]
-        kname = ("set", "path strings", "entries")[kind]
+        kind = trial % 5
+        # arguments that name a path more than once (two spellings of it, the entry twice, an entry and its path) and generators
+        dup = [q for p in Bp for q in ((spell(p), spell(p)) if rnd.random() < .6 else (spell(p),))]
+        arg = {0: lambda: contentsSet(Bents.values()), 1: lambda: [spell(p) for p in Bp], 2: lambda: list(Bents.values()),
+               3: lambda: list(dup), 4: lambda: [x for p in Bp for x in (Bents[p], Bents[p])] if trial % 2 else (y for y in list(Bents.values()))}[kind]
+        kname = ("set", "path strings", "entries", "path strings with repeats", "entries twice / a generator")[kind]
         sa, sb = set(A), set(Bp)
         ops = {"difference": sa - sb, "intersection": sa & sb, "union": sa | sb, "symmetric_difference": sa ^ sb}
         for op, want in ops.items():
-            if kind == 1 and op in ("union", "symmetric_difference"):
+            if kind in (1, 3) and op in ("union", "symmetric_difference"):
                 continue   # these need entries to insert
             cases += 1
             s = contentsSet(A.values())
